@@ -229,6 +229,14 @@ def text_rewrites(text, tier, dense):
         if len(parts) == 2 and " " not in parts[1] and "{" not in parts[1]:
             new = lines[:li] + [line.replace(st, "${" + name + " " + parts[1] + "}")] + lines[li + 1:]
             yield f"macro-arg line {li}", f"macro {name} [ {parts[0]} ${{1}} ]\n" + "\n".join(new)
+    # comments of every style inside a macro body (body kept multi-line)
+    mb = re.search(r'(task \w+ "\w+" \{\n)((?:\s+[^{}\n]+\n){2,})(\s*\})', text)
+    if mb:
+        blines = mb.group(2).split("\n")
+        for ci, com in enumerate(("// c", "# c", "/* c */", "// { \" c")):
+            for pos in range(1, len(blines) - 1):
+                body = "\n".join(blines[:pos] + ["    " + com] + blines[pos:])
+                yield f"macro body comment {ci}@{pos}", "macro bodyc [\n" + body + "]\n" + text[:mb.start(2)] + "  ${bodyc}\n" + text[mb.end(2):]
     # a whole task body
     m = re.search(r'(task \w+ "\w+" \{\n)((?:\s+[^{}\n]+\n)+)(\s*\})', text)
     if m:
